@@ -709,9 +709,11 @@ def oracle(case, obs, messages, flags):
             for key, o in Qcd['opts'].items():
                 name = key[1:] if key.startswith(':') else key
                 e = Q['intro'].get(name)
-                if e is None or e[2] != o[1]:
-                    fail(i, 'introspection shows the persisted values', 'intro-mismatch:' + key,
-                         'intro-buildoptions.json has %r for %s, coredata.dat has %r' % (e, key, o[1]))
+                # the listed value is the EFFECTIVE one (what get_option() returns in that project):
+                # the stored value, or the parent's value for a yielding option
+                if e is None or e[2] != o[3]:
+                    fail(i, 'introspection shows the value every option has', 'intro-mismatch:' + key,
+                         'intro-buildoptions.json has %r for %s, its effective value in coredata.dat is %r (stored %r)' % (e, key, o[3], o[1]))
             # per-subproject overrides are listed under the subproject-qualified name
             for key, v in Qcd['aug'].items():
                 e = Q['intro'].get(key)
